@@ -276,6 +276,21 @@ func (r *obsRepo) ExtendStorageOutboxEntryClaim(ctx context.Context, tx *sql.Tx,
 type gatedInner struct {
 	storage.Storage
 	g *gate
+	// passive: the lifecycle of the inner storage belongs to another outbox instance
+	passive bool
+}
+
+func (s *gatedInner) Start(ctx context.Context) error {
+	if s.passive {
+		return nil
+	}
+	return s.Storage.Start(ctx)
+}
+func (s *gatedInner) Stop(ctx context.Context) error {
+	if s.passive {
+		return nil
+	}
+	return s.Storage.Stop(ctx)
 }
 
 func (s *gatedInner) done(ctx context.Context, method string, err error, write bool, extra map[string]any) {
@@ -295,7 +310,7 @@ func (s *gatedInner) done(ctx context.Context, method string, err error, write b
 		} else {
 			p.wstate = "failed"
 		}
-	case method == "GetBucketVersioningConfiguration" && (p.call["op"] == "PutObject" || p.call["op"] == "DeleteObject"):
+	case method == "GetVersioning" && (p.call["op"] == "PutObject" || p.call["op"] == "DeleteObject"):
 		ev["ev"] = "Route"
 	default:
 		ev["ev"] = "Inner"
@@ -348,7 +363,55 @@ func (s *gatedInner) GetBucketVersioningConfiguration(ctx context.Context, b sto
 	case r != nil && r.Status != nil:
 		ver = string(*r.Status)
 	}
-	s.done(ctx, "GetBucketVersioningConfiguration", err, false, map[string]any{"ver": ver})
+	s.done(ctx, "GetVersioning", err, false, map[string]any{"ver": ver})
+	return r, err
+}
+func (s *gatedInner) ListObjectVersions(ctx context.Context, b storage.BucketName, o storage.ListObjectVersionsOptions) (*storage.ListObjectVersionsResult, error) {
+	s.g.park(ctx, "inner")
+	r, err := s.Storage.ListObjectVersions(ctx, b, o)
+	s.done(ctx, "ListObjectVersions", err, false, nil)
+	return r, err
+}
+func (s *gatedInner) ListMultipartUploads(ctx context.Context, b storage.BucketName, o storage.ListMultipartUploadsOptions) (*storage.ListMultipartUploadsResult, error) {
+	s.g.park(ctx, "inner")
+	r, err := s.Storage.ListMultipartUploads(ctx, b, o)
+	s.done(ctx, "ListMultipartUploads", err, false, nil)
+	return r, err
+}
+func (s *gatedInner) ListParts(ctx context.Context, b storage.BucketName, k storage.ObjectKey, u storage.UploadId, o storage.ListPartsOptions) (*storage.ListPartsResult, error) {
+	s.g.park(ctx, "inner")
+	r, err := s.Storage.ListParts(ctx, b, k, u, o)
+	s.done(ctx, "ListParts", err, false, nil)
+	return r, err
+}
+func (s *gatedInner) GetObjectTagging(ctx context.Context, b storage.BucketName, k storage.ObjectKey, o *storage.ObjectTaggingOptions) (map[string]string, error) {
+	s.g.park(ctx, "inner")
+	r, err := s.Storage.GetObjectTagging(ctx, b, k, o)
+	s.done(ctx, "GetObjectTagging", err, false, nil)
+	return r, err
+}
+func (s *gatedInner) GetBucketWebsiteConfiguration(ctx context.Context, b storage.BucketName) (*storage.WebsiteConfiguration, error) {
+	s.g.park(ctx, "inner")
+	r, err := s.Storage.GetBucketWebsiteConfiguration(ctx, b)
+	s.done(ctx, "GetWebsite", err, false, nil)
+	return r, err
+}
+func (s *gatedInner) GetBucketCORSConfiguration(ctx context.Context, b storage.BucketName) (*storage.BucketCORSConfiguration, error) {
+	s.g.park(ctx, "inner")
+	r, err := s.Storage.GetBucketCORSConfiguration(ctx, b)
+	s.done(ctx, "GetCORS", err, false, nil)
+	return r, err
+}
+func (s *gatedInner) GetBucketLifecycleConfiguration(ctx context.Context, b storage.BucketName) (*storage.BucketLifecycleConfiguration, error) {
+	s.g.park(ctx, "inner")
+	r, err := s.Storage.GetBucketLifecycleConfiguration(ctx, b)
+	s.done(ctx, "GetLifecycle", err, false, nil)
+	return r, err
+}
+func (s *gatedInner) GetBucketNotificationConfiguration(ctx context.Context, b storage.BucketName) (*storage.BucketNotificationConfiguration, error) {
+	s.g.park(ctx, "inner")
+	r, err := s.Storage.GetBucketNotificationConfiguration(ctx, b)
+	s.done(ctx, "GetNotification", err, false, nil)
 	return r, err
 }
 func (s *gatedInner) PutBucketVersioningConfiguration(ctx context.Context, b storage.BucketName, c *storage.BucketVersioningConfiguration) error {
